@@ -1,32 +1,38 @@
 /-!
 # TR.Parse — raw frame decoding: `lepton3.ParseRawFrame` and `convertRawBosonFrame`
 
-A raw frame is a list of bytes.  Both parsers walk the pixel words row-major, store each in
+A raw frame is a byte accessor `raw : Nat → Nat` (index ↦ byte; the driver backs it by an array,
+the theorems hold for every accessor).  Both parsers walk the pixel words row-major, store each in
 the output frame and stop with a bad-frame error at the first zero pixel that is not in the
 edge border (`edge` pixels wide).  Lepton: big-endian words after 640 telemetry bytes;
 Boson: little-endian words, constant telemetry.
 -/
 namespace TR.Parse
 
-def byteAt (raw : List Nat) (i : Nat) : Nat := raw.getD i 0
+abbrev Raw := Nat → Nat
+
+def byteAt (raw : Raw) (i : Nat) : Nat := raw i
+
+/-- accessor of a byte list (out-of-range reads as 0; the real parsers are only handed full frames) -/
+def ofList (l : List Nat) : Raw := fun i => l.getD i 0
 
 /-- big-endian 16-bit word at byte offset `i` -/
-def be16 (raw : List Nat) (i : Nat) : Nat := byteAt raw i * 256 + byteAt raw (i + 1)
+def be16 (raw : Raw) (i : Nat) : Nat := byteAt raw i * 256 + byteAt raw (i + 1)
 /-- little-endian 16-bit word at byte offset `i` -/
-def le16 (raw : List Nat) (i : Nat) : Nat := byteAt raw i + byteAt raw (i + 1) * 256
+def le16 (raw : Raw) (i : Nat) : Nat := byteAt raw i + byteAt raw (i + 1) * 256
 
 def onEdge (w h edge y x : Nat) : Bool :=
   decide (y < edge) || decide (x < edge) || decide (y ≥ h - edge) || decide (x ≥ w - edge)
 
 /-- pixel (y,x) of a frame whose pixel words start at byte `off` -/
-def pixel (word : List Nat → Nat → Nat) (raw : List Nat) (off w y x : Nat) : Nat :=
+def pixel (word : Raw → Nat → Nat) (raw : Raw) (off w y x : Nat) : Nat :=
   word raw (off + 2 * (y * w + x))
 
 /-- coordinates in the order the parsers visit them -/
 def coords (w h : Nat) : List (Nat × Nat) := (List.range h).flatMap fun y => (List.range w).map fun x => (y, x)
 
 /-- first interior zero pixel in scan order, if any -/
-def firstBad (word : List Nat → Nat → Nat) (raw : List Nat) (off w h edge : Nat) : Option (Nat × Nat) :=
+def firstBad (word : Raw → Nat → Nat) (raw : Raw) (off w h edge : Nat) : Option (Nat × Nat) :=
   (coords w h).find? fun p => !onEdge w h edge p.1 p.2 && pixel word raw off w p.1 p.2 == 0
 
 structure Telemetry where
@@ -40,12 +46,12 @@ structure Telemetry where
   deriving DecidableEq, Repr
 
 /-- Big16 32-bit value at word index `k`: low half first -/
-def big16u32 (raw : List Nat) (k : Nat) : Nat := be16 raw (2 * k) + be16 raw (2 * k + 2) * 65536
+def big16u32 (raw : Raw) (k : Nat) : Nat := be16 raw (2 * k) + be16 raw (2 * k + 2) * 65536
 
 def leptonTelemetryBytes : Nat := 640
 
 /-- `lepton3.ParseTelemetry` (fields the recorder uses) -/
-def leptonTelemetry (raw : List Nat) : Telemetry :=
+def leptonTelemetry (raw : Raw) : Telemetry :=
   { timeOnMs := big16u32 raw 1,
     lastFFCMs := big16u32 raw 30,
     fpaTempCK := be16 raw (2 * 24),
@@ -63,19 +69,19 @@ inductive Result
   | ok (pix : Nat → Nat → Nat) (t : Telemetry)
   | bad (y x : Nat)                      -- BadFrameErr at this pixel
 
-def parseLepton (raw : List Nat) (w h edge : Nat) : Result :=
+def parseLepton (raw : Raw) (w h edge : Nat) : Result :=
   match firstBad be16 raw leptonTelemetryBytes w h edge with
   | some p => .bad p.1 p.2
   | none => .ok (fun y x => pixel be16 raw leptonTelemetryBytes w y x) (leptonTelemetry raw)
 
-def parseBoson (raw : List Nat) (w h edge : Nat) : Result :=
+def parseBoson (raw : Raw) (w h edge : Nat) : Result :=
   match firstBad le16 raw 0 w h edge with
   | some p => .bad p.1 p.2
   | none => .ok (fun y x => pixel le16 raw 0 w y x) bosonTelemetry
 
 /-- what the output frame holds after a rejected parse: pixels before the bad one (inclusive)
 are overwritten, later ones keep the old content — the "scribble" -/
-def scribble (word : List Nat → Nat → Nat) (raw : List Nat) (off w : Nat) (bad : Nat × Nat)
+def scribble (word : Raw → Nat → Nat) (raw : Raw) (off w : Nat) (bad : Nat × Nat)
     (old : Nat → Nat → Nat) : Nat → Nat → Nat :=
   fun y x => if y * w + x ≤ bad.1 * w + bad.2 then pixel word raw off w y x else old y x
 
